@@ -4,6 +4,7 @@ import (
 	"encoding/json"
 	"errors"
 	"fmt"
+	"io"
 	"net/http"
 	"strings"
 
@@ -39,6 +40,10 @@ func panicValue(i int) any {
 		return ptrVal
 	case 6:
 		return typedNil
+	case 7:
+		return http.ErrAbortHandler // the sentinel net/http itself treats specially
+	case 8:
+		return io.EOF
 	}
 	return nil
 }
@@ -164,6 +169,13 @@ func c16System(kind string) (srv http.Handler, routerRec, groupRec string, rl, g
 		g.Use(hv.MW{Name: "G"})
 		router = g.New("r1", host)
 		routerRec, groupRec = "status", "status"
+	case "group-rec-new-extra-option":
+		// New gets an unrelated option of its own: the group's recovery must still be inherited
+		g = newGroup(recOpt(gl))
+		g.Use(hv.MW{Name: "G"})
+		router = g.New("r1", host, trace, mux.WithURLDomain("https://h"))
+		rl = gl
+		routerRec, groupRec = "func", "func"
 	case "group-rec-new-overrides":
 		g = newGroup(trace, recOpt(gl))
 		g.Use(hv.MW{Name: "G"})
@@ -192,7 +204,7 @@ func c16System(kind string) (srv http.Handler, routerRec, groupRec string, rl, g
 	return g, routerRec, groupRec, rl, gl, router
 }
 
-var c16Kinds = []string{"router-none", "router-rec", "router-status", "group-none", "group-rec-inherited", "group-status-inherited", "group-rec-new-overrides", "group-rec-added-own", "group-none-added-rec", "group-rec-added-none"}
+var c16Kinds = []string{"group-rec-new-extra-option", "router-none", "router-rec", "router-status", "group-none", "group-rec-inherited", "group-status-inherited", "group-rec-new-overrides", "group-rec-added-own", "group-none-added-rec", "group-rec-added-none"}
 
 func c16Job(raw json.RawMessage) (any, error) {
 	var it c16Item
@@ -332,16 +344,16 @@ func init() {
 		}
 		rc.Assume = append(rc.Assume,
 			"instances: Router and Group with no recovery / WithRecovery(f) / WithStatusRecovery(500); routers made by Group.New inheriting and overriding the option; routers Added with and without their own option - 10 kinds, one long-lived instance per sequence",
-			"events: 3 normal requests (one of them issues a second request from inside its handler, so two requests are alive at once) and 18 panic sites (handlers for GET/POST/HEAD/params, each middleware layer before and after next, 404, 405, OPTIONS, TRACE, OPTIONS *, group not-found, group Use middleware) x panic values {string, error, int, runtime.Error, struct, pointer, typed nil}",
+			"events: 3 normal requests (one of them issues a second request from inside its handler, so two requests are alive at once) and 18 panic sites (handlers for GET/POST/HEAD/params, each middleware layer before and after next, 404, 405, OPTIONS, TRACE, OPTIONS *, group not-found, group Use middleware) x panic values {string, error, int, runtime.Error, struct, pointer, typed nil, http.ErrAbortHandler, io.EOF}",
 			"all sequences of length <= 2 with all values (quick) and length 3 with two values; thorough: length 3 with all values and length 4 with two",
 			"with recovery: nothing escapes, the function in force gets the identical value exactly once; every later request is served normally with its own parameters at handler entry and exit; without: the identical value reaches the caller")
 		type plan struct {
 			l    int
 			vals []int
 		}
-		plans := []plan{{2, []int{0, 1, 2, 3, 4, 5, 6}}, {3, []int{0, 3}}}
+		plans := []plan{{2, []int{0, 1, 2, 3, 4, 5, 6, 7, 8}}, {3, []int{0, 3}}}
 		if !rc.Quick() {
-			plans = []plan{{3, []int{0, 1, 2, 3, 4, 5, 6}}, {4, []int{0, 3}}}
+			plans = []plan{{3, []int{0, 1, 2, 3, 4, 5, 6, 7, 8}}, {4, []int{0, 3, 7}}}
 		}
 		var items []c16Item
 		for _, p := range plans {
